@@ -283,4 +283,14 @@ example : ∃ s, Reach s ∧ s.sigs = [(0, 7, .closed), (1, 8, .aborted)] ∧ s.
   ⟨(runL (init 2) exMgr).get (by decide), reach_runL (init 2) exMgr _ (Reach.init 2) (by decide),
     by decide, by decide, by decide, by decide⟩
 
+/-- **the once-only guard of the "block complete" channel, tied to the source.** The model's `dlFinish` step
+    marks a block complete only `if ok && s.curHash == some d.hash && !s.curDone` and then sets `curDone`; two
+    downloaders finishing the same block at the same moment is an interleaving below the call granularity of
+    the harness, so the statement skeleton of `markBlockRequestComplete` is regenerated from block_manager.go
+    on every run: hash test, `currentIsComplete` test, the flag set BEFORE the single `close`. -/
+theorem C16_complete_guard_in_source :
+    Facts.guard_markBlockRequestComplete =
+      ["if !hash.Equal(&m.currentHash) return", "if m.currentIsComplete return", "m.currentIsComplete = true",
+       "close(m.currentComplete)"] := by decide
+
 end BRV.BlockMgr
